@@ -16,6 +16,11 @@ use blobs::*;
 use celestia_types::{Blob, Commitment, Share};
 use lv_core::*;
 use serde_json::{Value, json};
+use std::sync::OnceLock;
+use std::time::{Duration, Instant};
+
+/// Internal wall cap: cases reached after the deadline are skipped and reported as a cap.
+static DEADLINE: OnceLock<Instant> = OnceLock::new();
 
 #[derive(Clone, Debug)]
 struct Case {
@@ -117,6 +122,10 @@ fn tampers(p: &Plain, full: bool, n: usize) -> Vec<(String, &'static str, Plain)
 }
 
 fn eval(c: &Case, seed: u64, rep: &mut Report) {
+    if DEADLINE.get().is_some_and(|d| Instant::now() > *d) {
+        rep.cap_hit("wall cap: remaining cases skipped");
+        return;
+    }
     let case = || case_json(c, seed);
     let keystr = format!("{}/{}/{}/{}/{}", c.len, c.sv, c.ns, c.app, c.full);
     let nsb = ns_bytes(c.ns, seed);
@@ -348,6 +357,7 @@ fn main() {
         rep
     } else {
         let seed = ctx.seed;
+        let _ = DEADLINE.set(ctx.start + Duration::from_secs(ctx.tier.pick(600, 2400)));
         let cs = cases(max_n, n_full, &beyond);
         let n_cases = cs.len();
         let widths: std::collections::BTreeSet<u64> = cs.iter().map(|c| subtree_width(c.n as u64, 64)).collect();
